@@ -294,7 +294,7 @@ func goSerSnap(s *clientdb.LocalBatchSnapshot) (b []byte, err error, panicked bo
 		}
 	}()
 	var buf bytes.Buffer
-	err = clientdb.VerifSerializeLocalBatchSnapshot(&buf, s)
+	err = clientdb.VerifC10SerializeLocalBatchSnapshot(&buf, s)
 	return buf.Bytes(), err, false
 }
 
@@ -305,7 +305,7 @@ func goDeSnap(raw []byte) (y *clientdb.LocalBatchSnapshot, rest int, err error, 
 		}
 	}()
 	rd := bytes.NewReader(raw)
-	y, err = clientdb.VerifDeserializeLocalBatchSnapshot(rd)
+	y, err = clientdb.VerifC10DeserializeLocalBatchSnapshot(rd)
 	rest = rd.Len()
 	return
 }
@@ -429,7 +429,7 @@ func (c *c10Run) snapDB() {
 		if !ok {
 			continue
 		}
-		if err := db.VerifStorePendingBatchSnapshot(spec.build()); err != nil {
+		if err := db.VerifC10StorePendingBatchSnapshot(spec.build()); err != nil {
 			r.Count("snap/db-store-error")
 			continue
 		}
@@ -442,7 +442,7 @@ func (c *c10Run) snapDB() {
 		// pending read
 		y, err := db.PendingBatchSnapshot()
 		r.Evaluations++
-		raw := db.VerifRawPendingSnapshot()
+		raw := db.VerifC10RawPendingSnapshot()
 		if err != nil {
 			r.Count("oracle/violation")
 			r.Violate(fmt.Sprintf("pending snapshot not readable: %v", err), "C10/snap-db-pending", c10Case{Kind: "snap", Snap: spec})
@@ -455,7 +455,7 @@ func (c *c10Run) snapDB() {
 		// the read path (blob + completion of own orders from the orders bucket)
 		opP := "C10 snapfull " + hx(raw)
 		for _, o := range spec.Orders {
-			base, mu, tlvB, tier, _ := db.VerifRawOrder(order.Nonce(arr32(o.Nonce)))
+			base, mu, tlvB, tier, _ := db.VerifC10RawOrder(order.Nonce(arr32(o.Nonce)))
 			opP += " " + o.Nonce + " " + (&c10OrderRec{base, mu, tlvB, tier}).tokens()
 		}
 		r.Emit(opP, "ok "+renderSnapshot(y))
@@ -475,7 +475,7 @@ func (c *c10Run) snapDB() {
 		}
 		var id order.BatchID
 		copy(id[:], unhexOr(spec.BatchID))
-		if err := db.VerifFinalizeBatchSnapshot(id); err != nil {
+		if err := db.VerifC10FinalizeBatchSnapshot(id); err != nil {
 			r.Count("snap/db-finalize-error")
 			continue
 		}
@@ -503,9 +503,9 @@ func (c *c10Run) snapDB() {
 				continue
 			}
 			if sp == spec {
-				op := "C10 snapfull " + hx(db.VerifRawSnapshot(sid))
+				op := "C10 snapfull " + hx(db.VerifC10RawSnapshot(sid))
 				for _, o := range sp.Orders {
-					base, mu, tlvB, tier, _ := db.VerifRawOrder(order.Nonce(arr32(o.Nonce)))
+					base, mu, tlvB, tier, _ := db.VerifC10RawOrder(order.Nonce(arr32(o.Nonce)))
 					op += " " + o.Nonce + " " + (&c10OrderRec{base, mu, tlvB, tier}).tokens()
 				}
 				r.Emit(op, "ok "+renderSnapshot(y))
@@ -543,7 +543,7 @@ func (c *c10Run) snapDBFixed(spec *c10Snap) {
 			return
 		}
 	}
-	if db.VerifStorePendingBatchSnapshot(spec.build()) != nil {
+	if db.VerifC10StorePendingBatchSnapshot(spec.build()) != nil {
 		return
 	}
 	r.Evaluations++
@@ -560,7 +560,7 @@ func (c *c10Run) snapDBFixed(spec *c10Snap) {
 	}
 	var id order.BatchID
 	copy(id[:], unhexOr(spec.BatchID))
-	if db.VerifFinalizeBatchSnapshot(id) != nil {
+	if db.VerifC10FinalizeBatchSnapshot(id) != nil {
 		return
 	}
 	y, err = db.GetLocalBatchSnapshot(id)
